@@ -25,8 +25,11 @@ RULE = (
     "NOT_SELECTED and SELECTED, passive and active mode, optionally with a generated thread schedule. Oracle: disconnect "
     "handling finishes within 5 virtual seconds (state NOT_CONNECTED, receive buffer empty), a new connection is accepted, "
     "Select succeeds, the first message delivered afterwards is the first one sent (no stale bytes), disable() returns within "
-    "its horizon; the scheduler reports no deadlock/livelock. Non-trivial = cut strictly inside a frame; distinct by "
-    "(stream, offset, follow-up, state, mode)."
+    "its horizon; the scheduler reports no deadlock/livelock. A second generated family (closerace) applies the follow-up "
+    "while the delivered bytes are still being processed and their responses are still queued, under PRNG schedules with "
+    "parked preemptions in the connect/disconnect handlers, the dispatcher and _process_send_queue; a third (race) lets "
+    "enable()/disable() race the accept/connect thread. Non-trivial = cut strictly inside a frame, or a closerace/race "
+    "case; distinct by (stream, offset, follow-up, state, mode, schedule)."
 )
 ASSUMPTIONS = [
     "simulated sockets model Linux non-blocking TCP semantics (EOF, EPIPE/ECONNRESET, EBADF on closed sockets, select on a closed socket raises)",
@@ -68,8 +71,15 @@ def run_one(case):
             if not rig.select_from_peer():
                 return Failure("setup-failed", case, rig.state(), "SELECTED")
         if off > 0:
-            rig.feed(stream[:off])
-        rig.drain()
+            # "unsettled": the follow-up hits while the bytes are still being processed and their responses still queued
+            rig.feed(stream[:off], settle=not case.get("unsettled"))
+        if not case.get("unsettled"):
+            rig.drain()
+        elif case.get("close_at") == "response-queued":
+            # run until a response sits in the send queue (not sent yet), then apply the follow-up at that very point
+            q = getattr(rig.p, "_send_queue", None)
+            if q is not None:
+                sim.pump(stop=lambda: q.qsize() >= 1)
         fu = case["followup"]
         if fu == "disable":
             st_, _ = rig.disable(horizon=120)
@@ -203,6 +213,8 @@ def plan(tier, seed):
         tasks.append(("enum", {"shard": i, "streams": 1 if quick else 20, "max_len": 70 if quick else 600}))
     for i in range(4):
         tasks.append(("race", {"shard": i, "n": 40 if quick else 1500}))
+    for i in range(8):
+        tasks.append(("closerace", {"shard": i, "n": 60 if quick else 2500}))
     return tasks
 
 
@@ -225,7 +237,35 @@ def race_strategy():
     )
 
 
+HOT = ("_on_connected", "_dispatcher_thread_function", "_on_connection_message_received", "_on_disconnected", "_process_send_queue", "_on_disconnecting")
+
+
+@st.composite
+def closerace_strategy(draw):
+    frames = draw(stream_strategy())
+    total = sum(len(c04.frame_bytes(f)) for f in frames)
+    off = total if draw(st.integers(0, 3)) else draw(st.integers(1, total))
+    return {
+        "frames": frames,
+        "offset": off,
+        "followup": draw(st.sampled_from(["peer_close", "peer_close", "disable"])),
+        "state": draw(st.sampled_from(["selected", "not_selected"])),
+        "active": draw(st.booleans()),
+        "unsettled": True,
+        "close_at": draw(st.sampled_from(["at-once", "response-queued", "response-queued"])),
+        "sched": {"seed": draw(st.integers(1, 2**31)), "switch": draw(st.sampled_from([0.1, 0.5])), "pprob": draw(st.sampled_from([0.0, 0.02, 0.1, 0.1])), "hot": list(HOT)},
+    }
+
+
 def run_task(name, kw, ctx):
+    if name == "closerace":
+
+        def body(case):
+            ctx.case(case, True, ["closerace", f"followup:{case['followup']}", f"state:{case['state']}", "active" if case["active"] else "passive", "where:" + _where(case).split(":")[1], "random-schedule", "close-at:" + case["close_at"]])
+            return run_one(case)
+
+        ctx.hyp(closerace_strategy(), body, kw["n"], seed_offset=900 + kw["shard"])
+        return
     if name == "race":
 
         def body(case):
